@@ -120,6 +120,18 @@ func step(text string, op Op, skipDeltas bool) (rec map[string]any, newText stri
 	}
 	before := Boards(g)
 	out["before"] = before
+	// object keys parsed by the real key parser (raw ID values), so that the driver never splits a key itself
+	if kp := keyPath(op.Key); kp != nil {
+		in["keyPath"] = kp
+	}
+	if op.Kind == "move" {
+		if kp := keyPath(op.NewKey); kp != nil {
+			in["newKeyPath"] = kp
+		}
+	}
+	if fo := hl.Guard(func() { in["feat"] = Features(g, op) }); fo != "ok" {
+		in["feat"] = []string{"feature-extraction-panicked"}
+	}
 
 	// predicted ID deltas (computed before the edit; the functions must leave g unchanged)
 	var dm map[string]string
@@ -233,6 +245,19 @@ func step(text string, op Op, skipDeltas bool) (rec map[string]any, newText stri
 		out["fmtText"] = d2format.Format(ast)
 	}
 	return rec, newText
+}
+
+// keyPath parses an object key ("a.\"b.c\".d") into its raw segments; nil for edge keys and unparsable keys
+func keyPath(key string) []string {
+	var out []string
+	hl.Guard(func() {
+		mk, err := d2parser.ParseMapKey(key)
+		if err != nil || mk == nil || len(mk.Edges) > 0 || mk.Key == nil {
+			return
+		}
+		out = d2graph.Key(mk.Key)
+	})
+	return out
 }
 
 func sameBoards(a, b []CBoard) bool { return fmt.Sprintf("%v", a) == fmt.Sprintf("%v", b) }
@@ -418,6 +443,8 @@ func (og *OpGen) Next(boards []CBoard, bi int) Op {
 			}
 			if og.R.Intn(12) == 0 {
 				op.Tag = sp([]string{"md", "latex", "go", "has space"}[og.R.Intn(4)])
+				// block strings trim surrounding white space by syntax
+				op.Value = sp(strings.TrimSpace(*op.Value))
 				og.count("set:label-blockstring")
 			}
 		case x < 4: // label through the label keyword
@@ -437,7 +464,9 @@ func (og *OpGen) Next(boards []CBoard, bi int) Op {
 				op.Key = id + "." + a.attr
 				op.Value = sp(a.vals[og.R.Intn(len(a.vals))])
 			}
-			if og.R.Intn(15) == 0 {
+			// free-text attributes take any string; the others have their own value domains (C16), and a link that is
+			// neither a URL nor a board is dropped by the compiler (C35) — not the oracle's business
+			if op.Attr == "tooltip" && og.R.Intn(3) == 0 {
 				op.Value = sp(trickyValues[og.R.Intn(len(trickyValues))])
 				og.count("set:attr-tricky-value")
 			}
@@ -456,15 +485,22 @@ func (og *OpGen) Next(boards []CBoard, bi int) Op {
 			var cands []kv
 			for _, o := range g.Objs {
 				for _, a := range o.Attrs {
+					if a[0] == "language" || a[0] == "shape" && (a[1] == "rectangle" || og.R.Intn(4) != 0) {
+						continue // Delete does not support shape (see finding): keep it rare; language is derived
+					}
 					cands = append(cands, kv{o.ID, a[0]})
 				}
-				cands = append(cands, kv{o.ID, "label"})
+				if og.R.Intn(60) == 0 {
+					cands = append(cands, kv{o.ID, "label"})
+				}
 			}
 			for _, e := range g.Edges {
 				for _, a := range e.Attrs {
 					cands = append(cands, kv{e.ID, a[0]})
 				}
-				cands = append(cands, kv{e.ID, "label"})
+				if og.R.Intn(60) == 0 {
+					cands = append(cands, kv{e.ID, "label"})
+				}
 			}
 			if len(cands) == 0 {
 				op.Key, _ = objID()
@@ -491,7 +527,7 @@ func (og *OpGen) Next(boards []CBoard, bi int) Op {
 			op.Key, _ = objID()
 			op.NewName = og.name()
 			if og.R.Intn(20) == 0 {
-				op.NewName = []string{"style", "label", "a.b", "", "x -> y"}[og.R.Intn(5)]
+				op.NewName = []string{"style", "label", "a.b", "x -> y"}[og.R.Intn(4)]
 				og.count("rename:odd-name")
 			}
 			og.count("rename:object")
@@ -507,7 +543,7 @@ func (og *OpGen) Next(boards []CBoard, bi int) Op {
 		op.NewKey = parentPrefix() + nm
 		// a destination inside the moved object itself is a known trouble spot: keep it rare but present
 		if strings.HasPrefix(strings.ToLower(op.NewKey), strings.ToLower(op.Key)+".") {
-			if og.R.Intn(8) != 0 {
+			if og.R.Intn(20) != 0 {
 				op.NewKey = nm
 				if op.NewKey == op.Key {
 					op.NewKey = qname(og.name())
